@@ -114,6 +114,9 @@ def check(recipe, mode):
         must_raise('invalid-fft-with-' + m, T, band, struct, method=m, fft_size=4 * K, exc=(ValueError,))
         return {'nontrivial': False, 'classes': ['invalid:fft_nonoverlap']}
 
+    # illegal method names (incl. the documented-but-unlisted overlap_add) are refused for every configuration
+    for bad in ('overlap_add', 'FFT', 'overlap', ''):
+        must_raise('invalid-method', T, band, struct, method=bad, exc=(ValueError,))
     eps = float(np.finfo(np.float32 if 'float32' in (dt, bdt) else np.float64).eps)
     sband = float(np.abs(band_np).sum(axis=-1).max())
     xs = [_x(xshape, recipe['seed'], t) for t in range(2)]
